@@ -136,3 +136,4 @@ Proof.
   constructor; [|constructor]. split; [|vm_compute; reflexivity].
   unfold nolf. cbn. intuition discriminate.
 Qed.
+Print Assumptions C13_valid_rec_somewhere.
